@@ -356,10 +356,12 @@ def build_dag(
         Граф
     """
 
-    return (
-        AnnotationDAGBuilder()
-        .build(input_node=input_node, output_node=output_node)
-    )
+    builder = AnnotationDAGBuilder()
+
+    # None is the builder's own notation for a graph of a single node (see build_dag_single)
+    builder._check_base_class(output_node)
+
+    return builder.build(input_node=input_node, output_node=output_node)
 
 
 def build_dag_single(
